@@ -989,7 +989,8 @@ aiff_close (SF_PRIVATE *psf)
 		paiff->markstr = NULL ;
 		} ;
 
-	if (psf->file.mode == SFM_WRITE || psf->file.mode == SFM_RDWR)
+	/* write_header is set once aiff_open () has written its first header : a failed open must not touch the file. */
+	if ((psf->file.mode == SFM_WRITE || psf->file.mode == SFM_RDWR) && psf->write_header != NULL)
 	{	aiff_write_tailer (psf) ;
 		aiff_write_header (psf, SF_TRUE) ;
 		} ;
